@@ -142,11 +142,19 @@ def iterable : V → Bool
     | some k => iterableKind k
     | none => false
 
+def isMapValue : V → Bool
+  | .map _ => true
+  | .obj _ _ _ _ => true
+  | _ => false
+
+/-- what the hint `Iterable` accepts: `is_iterable`, and (when the generated flag says so) every map -/
+def iterableHint (v : V) : Bool := iterable v || (iterableHintAcceptsMaps && isMapValue v)
+
 def holds : Special → V → Bool
   | .always, _ => true
   | .callable, v => callable v
   | .indexable, v => indexable v
-  | .iterable, v => iterable v
+  | .iterable, v => iterableHint v
 
 /-- the string arms of `compare_value_type`, tried in source order -/
 def specialLookup (h : TyName) : List (TyName × Special) → Option Special
